@@ -965,3 +965,45 @@ func c02r8b(c *Ctx) {
 	}
 	c.check(extra == 0, R, f.Key+": every scanned record is indexed (tombstones included)", sets[0].Pos(), "setItem guarded only by `no error` and `not end of file`", "the rebuild skips some records ("+bad+"): a delete that reached the data file but not the hints is not replayed after a crash, the tree keeps the deleted value and GC later keeps it and drops the tombstone")
 }
+
+// c04l9: helper functions that read or write shared state without taking a
+// lock themselves rely on every caller holding it. The interprocedural
+// must-lockset (meet over all static call sites; goroutine entries and
+// dynamically called functions start empty) has to contain that lock at the
+// function's entry.
+func c04l9(c *Ctx) {
+	const R = "C04.L9"
+	L := c.P.Locks()
+	contracts := []struct{ fn, lock, what string }{
+		{"store.HintBuffer.Set", "store.hintChunk.Mutex", "the split buffer's maps and slots"},
+		{"store.HintBuffer.Get", "store.hintChunk.Mutex", "the split buffer's maps and slots"},
+		{"store.hintMgr.dump", "store.hintChunk.Mutex", "the chunk's split list (dump unlocks and re-locks it: it must be entered locked)"},
+		{"store.hintSplit.needDump", "store.hintChunk.Mutex", "the split's file/buffer fields"},
+		{"store.SliceHeader.Set", "store.HTree.Mutex", "a leaf's entry array"},
+		{"store.SliceHeader.Get", "store.HTree.Mutex", "a leaf's entry array"},
+		{"store.SliceHeader.Remove", "store.HTree.Mutex", "a leaf's entry array"},
+		{"store.SliceHeader.Iter", "store.HTree.Mutex", "a leaf's entry array"},
+		{"store.HTree.setToLeaf", "store.HTree.Mutex", "leafs and node summaries"},
+		{"store.HTree.remvoeFromLeaf", "store.HTree.Mutex", "leafs and node summaries"},
+		{"store.HTree.getLeafAndInvalidNodes", "store.HTree.Mutex", "node summaries (invalidation)"},
+		{"store.HTree.updateNodes", "store.HTree.Mutex", "node summaries (recomputation)"},
+		{"store.HTree.collectItems", "store.HTree.Mutex", "leafs and node summaries"},
+		{"store.HTree.listDir", "store.HTree.Mutex", "leafs and node summaries"},
+		{"store.dataChunk.AppendRecord", "store.dataStore.Mutex", "the head chunk's write head (position assignment)"},
+		{"store.dataChunk.flush", "store.dataStore.flushLock", "the one-flusher-per-store discipline"},
+		{"store.dataStore.GetStreamWriter", "store.dataStore.flushLock", "the one-writer-per-file discipline"},
+		{"store.HStore.updateNodesUpper", "store.HStore.htreeLock", "the store-level tree"},
+		{"store.mergeWriter.write", "store.hintMgr.mergeLock", "the merge state"},
+		{"store.Record.Copy", "store.dataChunk.Mutex", "a buffered record while the flusher may free it"},
+	}
+	c.Floor(R, len(contracts))
+	for _, ct := range contracts {
+		f := c.fn(R, ct.fn)
+		if f == nil {
+			continue
+		}
+		e := L.Entry(f)
+		_, held := e[ct.lock]
+		c.check(held, R, ct.fn+": entered only with "+short(ct.lock)+" held", f.Pos(), "entry lockset "+e.String(), ct.fn+" touches "+ct.what+" without locking; some call site reaches it without "+ct.lock+" held (entry lockset "+e.String()+"): a concurrent reader or writer sees a half-updated structure")
+	}
+}
